@@ -30,6 +30,7 @@ import (
 // This assumes that there are no special formatting directives
 // for any possible nested value.
 func marshalValueAny(enc *jsontext.Encoder, val any, mo *jsonopts.Struct) error {
+	verifPoint(2)
 	switch val := val.(type) {
 	case nil:
 		return enc.WriteToken(jsontext.Null)
@@ -62,6 +63,7 @@ func marshalValueAny(enc *jsontext.Encoder, val any, mo *jsonopts.Struct) error 
 // for any possible nested value.
 // Duplicate names must be rejected since this does not implement merging.
 func unmarshalValueAny(dec *jsontext.Decoder, uo *jsonopts.Struct) (any, error) {
+	verifPoint(3)
 	switch k := dec.PeekKind(); k {
 	case '{':
 		return unmarshalObjectAny(dec, uo)
